@@ -160,8 +160,8 @@ def newest : List File → Option File
     | none => some f
     | some g => if f.name < g.name then some g else some f
 
-/-- the scan added by fix #1 accepts what `replay` accepts, without the frame-size check -/
-def scanMode : Mode := ⟨true, true, false⟩
+/-- the scan added by fix #1 accepts exactly what the repaired `replay` accepts -/
+def scanMode : Mode := ⟨true, true, true⟩
 
 /-- `find_latest_sequence` -/
 def findLatest (m : Mode) (dec : Dec) (files : List File) : Nat :=
@@ -311,27 +311,30 @@ original sequence of the last one.  If the byte lies in a field the checksum pro
 absent; for `entry`/`cksum` the replay must moreover fail (the corruption is *reported*). -/
 def specFlip (fileRecs : List (List Rec)) (i p : Nat) (o : ReplayObs) : Bool :=
   let all := fileRecs.flatten
-  match fileRecs[i]? with
-  | none => false
-  | some rs =>
-    match locate rs p, o.runs with
-    | none, _ => false
-    | _, [] => false
-    | some (j, g), (d0, e0, _) :: _ =>
-      let before := (fileRecs.take i).flatten ++ rs.take j
-      -- the records delivered at `frm = 0`, as original records
-      let kept := all.filter (fun r => d0.contains r.entry)
-      isSubseq d0 (all.map (·.entry))
-      && kept.map (·.entry) == d0
-      && (List.range o.runs.length).all (fun frm =>
-          match o.runs[frm]? with
-          | some (d, e, l) =>
-              d == (delivered frm kept).map (·.entry) && e == e0
-              && (e != End.ok || l == lastSeq frm kept)
-          | none => false)
-      && (match g with
+  match fileRecs[i]?, o.runs with
+  | none, _ => false
+  | _, [] => false
+  | some rs, (d0, e0, _) :: _ =>
+    -- the records delivered at `frm = 0`, as original records
+    let kept := all.filter (fun r => d0.contains r.entry)
+    isSubseq d0 (all.map (·.entry))
+    && kept.map (·.entry) == d0
+    && (List.range o.runs.length).all (fun frm =>
+        match o.runs[frm]? with
+        | some (d, e, l) =>
+            d == (delivered frm kept).map (·.entry) && e == e0
+            && (e != End.ok || l == lastSeq frm kept)
+        | none => false)
+    && (match locate rs p with
+        | none => true            -- the byte lies in a torn tail: nothing more is required
+        | some (j, g) =>
+          let before := (fileRecs.take i).flatten ++ rs.take j
+          match g with
           | .seq => true
-          | .len => d0 == before.map (·.entry) || d0 == (before ++ (rs.drop j).take 1).map (·.entry)
+          | .len =>
+              -- reported, or the record looks torn: its file ends there and later files follow
+              d0 == before.map (·.entry) || d0 == (before ++ (rs.drop j).take 1).map (·.entry)
+              || d0 == (before ++ (fileRecs.drop (i + 1)).flatten).map (·.entry)
           | .entry => d0 == before.map (·.entry) && e0 != End.ok
           | .cksum => d0 == before.map (·.entry) && e0 != End.ok)
 
